@@ -92,3 +92,30 @@ Proof. vm_compute. reflexivity. Qed.
 Example C11_ex_read : read_frame ex_evil 32 = (RCorrupt, 0).
 Proof. vm_compute. reflexivity. Qed.
 (* ===== END segment-level block ===== *)
+
+(* ===== BEGIN WAL-level block ===== *)
+From RW Require Import Wal.Model Wal.CodecIdFacts.
+
+(* When a segment that the metadata lists as sealed is missing, or holds no committed
+   header (truncated below it / zeroed), Open fails instead of presenting a log with
+   silently missing entries.  (A header of a DIFFERENT segment is the byte-level clause
+   C11_open_detects_bad_sealed above.) *)
+Theorem C11_open_refuses_bad_sealed_segment :
+  forall c e ps, dk_inited (e_disk e) = true -> dk_meta (e_disk e) = Some ps ->
+    (exists s, In s (ps_segs ps) /\ si_sealed s = true /\
+               match lookup (name_of s) (dk_files (e_disk e)) with
+               | None => True
+               | Some f => cur_end f = 0
+               end) ->
+    exists r e', open_wal c e = (OErr r, e').
+Proof. exact bad_sealed_segment_refused. Qed.
+Print Assumptions C11_open_refuses_bad_sealed_segment.
+
+(* Not expressible in the model (observed on the implementation only, stream `openfail`):
+   "a failed Open leaves nothing locked or open" - BoltDB's file lock and OS handles;
+   "never hang" and the allocation bound for the real Go code are measured under a
+   watchdog (streams corrupt, openfail); decoding damaged bytes: C11_decode_prefix_fails,
+   C11_decode_trailing_fails above plus totality of decode_log by typing, with the model
+   tied to BinaryCodec.Decode (incl. the absence of panics) by the malformed half of the
+   `codec` stream. *)
+(* ===== END WAL-level block ===== *)
